@@ -339,19 +339,30 @@ def run(res, tier):
         raise AnalysisBroken('ROOTS: only %d pulse-driving calls found in ReflectServer' % n_rt)
     # ---- LINKS unlink-complete: taking a child out of a list updates both ends of the list
     f = fx.fn1(PN + '::ReschedulePulseChild')
-    resets = [w for w in f.walk() if w['k'] == 'BinaryOperator' and w.get('op') == '=' and A.strip_casts(w['ch'][0])['k'] == 'MemberExpr' and A.strip_casts(w['ch'][0]).get('n') in LINKF
-              and not A.is_this_member(A.strip_casts(w['ch'][0])) and (A.strip_casts(w['ch'][1])['k'] in ('GNUNullExpr', 'CXXNullPtrLiteralExpr') or A.strip_casts(w['ch'][1]).get('v') == 0
-                                                                    or (A.strip_casts(w['ch'][1])['k'] == 'BinaryOperator' and A.strip_casts(w['ch'][1]).get('op') == '='))]
+    from msa import ip as IP
+
+    def _resets(g):
+        return [w for w in g.walk() if w['k'] == 'BinaryOperator' and w.get('op') == '=' and A.strip_casts(w['ch'][0])['k'] == 'MemberExpr' and A.strip_casts(w['ch'][0]).get('n') in LINKF
+                and not A.is_this_member(A.strip_casts(w['ch'][0])) and (A.strip_casts(w['ch'][1])['k'] in ('GNUNullExpr', 'CXXNullPtrLiteralExpr') or A.strip_casts(w['ch'][1]).get('v') == 0
+                                                                      or (A.strip_casts(w['ch'][1])['k'] == 'BinaryOperator' and A.strip_casts(w['ch'][1]).get('op') == '='))]
+    # the unlink may sit in ReschedulePulseChild itself or in a private helper it calls
+    sc = IP.scope(fx, f, r'^muscle::PulseNode::')
+    per = [(g, _resets(g)) for g in sc]
+    resets = [r_ for (g, rs) in per for r_ in rs]
     if not resets:
-        raise AnalysisBroken('LINKS: the reset of the unlinked child\'s sibling pointers was not found in ReschedulePulseChild')
+        raise AnalysisBroken('LINKS: the reset of the unlinked child\'s sibling pointers was not found in ReschedulePulseChild (or the PulseNode helpers it calls)')
+    rf = [g for (g, rs) in per if rs][0]
     ends = {'_firstChild': False, '_lastChild': False}
-    for w in f.walk():
-        if w['k'] == 'BinaryOperator' and w.get('op') == '=':
-            l_ = A.strip_casts(w['ch'][0])
-            if l_['k'] == 'ArraySubscriptExpr' and A.strip_casts(l_['ch'][0]).get('n') in ends and any(x['k'] == 'MemberExpr' and x.get('n') in LINKF for x in w['ch'][1].walk()):
-                if any(C.can_reach(f, P.pos_of(f, w), set([P.pos_of(f, r_)])) or (P.pos_of(f, w)[0] == P.pos_of(f, r_)[0] and P.pos_of(f, w)[1] < P.pos_of(f, r_)[1]) for r_ in resets if P.pos_of(f, w) and P.pos_of(f, r_)):
-                    ends[A.strip_casts(l_['ch'][0])['n']] = True
-    res.ob('LINKS', f.where(resets[0]), 'ReschedulePulseChild: unlinking a child repairs both _firstChild[list] and _lastChild[list] from the child\'s sibling links', all(ends.values()), function=f.q,
+    for (g, rs) in per:
+        for w in g.walk():
+            if w['k'] == 'BinaryOperator' and w.get('op') == '=':
+                l_ = A.strip_casts(w['ch'][0])
+                if l_['k'] == 'ArraySubscriptExpr' and A.strip_casts(l_['ch'][0]).get('n') in ends and any(x['k'] == 'MemberExpr' and x.get('n') in LINKF for x in w['ch'][1].walk()):
+                    pw = P.pos_of(g, w)
+                    # the repair reads the child's links, so within one function it has to come before they are cleared; a repair in a different function of the scope is accepted as it is
+                    if not rs or any(pw and P.pos_of(g, r_) and (C.can_reach(g, pw, set([P.pos_of(g, r_)])) or (pw[0] == P.pos_of(g, r_)[0] and pw[1] < P.pos_of(g, r_)[1])) for r_ in rs):
+                        ends[A.strip_casts(l_['ch'][0])['n']] = True
+    res.ob('LINKS', rf.where(resets[0]), 'ReschedulePulseChild: unlinking a child repairs both _firstChild[list] and _lastChild[list] from the child\'s sibling links', all(ends.values()), function=f.q,
            key='LINKS|%s|unlink-complete' % f.q, how=str(ends),
            message='ReschedulePulseChild takes a child out of its list without repairing %s from the child\'s sibling pointer: when the child was at that end the list keeps pointing at a node that is no '
                    'longer in it — the next insertion there links behind the departed node and becomes unreachable, so it is never asked or pulsed'
